@@ -251,3 +251,5 @@ def run(ck, facts, tier):
     ck.floor("R11.1", "adapter forwarding methods", n, 30)
     ck.assumptions = ["coherence over mutation histories is not decided; it relies on the wrapped store (C01)"]
     ck.trusted = ["rustc MIR (resolved trait-method callees, argument provenance)"]
+    import witness
+    witness.apply(ck, "C11")
